@@ -26,7 +26,7 @@ def range_bounds(call):
 
 def check_body(rep, prog, eff, fn, call, lam_fn, role):
     """R03a on one task body"""
-    ivs, rparam = par.induction_vars(lam_fn)
+    ivs, rparam = par.induction_vars(lam_fn, call)
     lo, hi = range_bounds(call)
     writes = eff.writes(lam_fn)
     site_what = 'task body of %s (%s) makes no conflicting unsynchronised write' % (call.callee['name'], role)
@@ -126,7 +126,7 @@ def check_schedule_independence(rep, prog, eff, fn, call, lam_fn, role):
     parameter and the induction variable; (2) the body does not read a shared std::atomic (its value depends on inter-task timing)"""
     if role not in ('body',) or lam_fn.body is None:
         return
-    ivs, rparam = par.induction_vars(lam_fn)
+    ivs, rparam = par.induction_vars(lam_fn, call)
     acc = lam_fn.param_ids[1] if call.callee['name'] == 'parallel_reduce' and len(lam_fn.param_ids) > 1 else None
     loops = [x for x in lam_fn.body.c if x.k in ('ForStmt', 'WhileStmt')]
     what = 'the work done for one index does not depend on the other indices handled by the same task or on inter-task timing'
